@@ -1364,3 +1364,49 @@ func init() {
 		reg(pfx+"vClones", func(i *interpreter, fr *frame, fn *ssa.Function, a []value) value { return len(i.ps.fs.cloneLog) })
 	}
 }
+
+// ---------------------------------------------------------------- recording mode for the clone-arithmetic kernels
+//
+// With vRecordIO(true) the copy helpers of the seed segments and CloneRange do not touch
+// the file system: they append (kind, srcOffset, length, dstOffset) to a log with the
+// operands left symbolic, so that the 64-bit arithmetic of the callers can be checked.
+
+func (i *interpreter) recordIO(kind uint64, src, length, dst value) {
+	i.ps.ioLog = append(i.ps.ioLog, kind, src, length, dst)
+}
+
+func init() {
+	reg("(*"+desyncPath+".fileSeedSegment).copy", func(i *interpreter, fr *frame, fn *ssa.Function, a []value) value {
+		if !i.ps.recordIOOn {
+			return notHandled{}
+		}
+		// copy(dst, src *os.File, srcOffset, length, dstOffset)
+		i.recordIO(uint64(0), a[3], a[4], a[5])
+		return tuple{a[4], uint64(0), iface{}}
+	})
+	reg("(*"+desyncPath+".nullChunkSection).copy", func(i *interpreter, fr *frame, fn *ssa.Function, a []value) value {
+		if !i.ps.recordIOOn {
+			return notHandled{}
+		}
+		// copy(dst *os.File, offset, length)
+		i.recordIO(uint64(0), a[2], a[3], a[2])
+		return tuple{a[3], uint64(0), iface{}}
+	})
+	prev := intrinsics[desyncPath+".CloneRange"]
+	reg(desyncPath+".CloneRange", func(i *interpreter, fr *frame, fn *ssa.Function, a []value) value {
+		if !i.ps.recordIOOn {
+			return prev(i, fr, fn, a)
+		}
+		i.recordIO(uint64(1), a[2], a[3], a[4])
+		return iface{}
+	})
+	for _, pfx := range []string{desyncPath + ".", desyncPath + "/cmd/desync."} {
+		reg(pfx+"vRecordIO", func(i *interpreter, fr *frame, fn *ssa.Function, a []value) value {
+			i.ps.recordIOOn = a[0].(bool)
+			return nil
+		})
+		reg(pfx+"vIOLog", func(i *interpreter, fr *frame, fn *ssa.Function, a []value) value {
+			return append([]value(nil), i.ps.ioLog...)
+		})
+	}
+}
